@@ -19,6 +19,7 @@ import (
 	"io"
 	"log"
 	"os"
+	"os/exec"
 	"runtime"
 	"sync"
 	"time"
@@ -45,6 +46,7 @@ type StepC struct {
 	HasPre     bool  `json:"haspre"`
 	Sfail      bool  `json:"sfail"` // node.setup fails (stdout file in a directory that does not exist)
 	Fails      int   `json:"fails"` // the first Fails attempts fail; -1: every attempt fails
+	Out        bool  `json:"out,omitempty"` // the step has an `output:` variable; the executor prints a few bytes
 }
 
 type Ev struct {
@@ -72,6 +74,7 @@ type Case struct {
 	Policy    string  `json:"policy"` // imm | rnd | quiet
 	PauseUs   int     `json:"pause"`
 	Rs        uint64  `json:"rs"` // seed of the run's own random choices
+	Fresh     bool    `json:"fresh,omitempty"` // run in a fresh process (node ids 1..n as in an agent process)
 	// observed
 	Events []Ev  `json:"events"`
 	Final  []Fin `json:"final"`
@@ -102,12 +105,13 @@ type world struct {
 var worlds sync.Map // run id -> *world
 
 type scripted struct {
-	w   *world
-	idx int
-	ctx context.Context
+	w      *world
+	idx    int
+	ctx    context.Context
+	stdout io.Writer
 }
 
-func (s *scripted) SetStdout(io.Writer) {}
+func (s *scripted) SetStdout(o io.Writer) { s.stdout = o }
 func (s *scripted) SetStderr(io.Writer) {}
 func (s *scripted) Kill(sig os.Signal) error {
 	w := s.w
@@ -150,6 +154,9 @@ func (s *scripted) Run() error {
 		}
 	} else if d > 0 {
 		time.Sleep(d)
+	}
+	if w.c.Steps[s.idx].Out && s.stdout != nil {
+		fmt.Fprintf(s.stdout, "out-of-step-%d attempt %d\n", s.idx, a)
 	}
 	w.mu.Lock()
 	var err error
@@ -212,6 +219,9 @@ func runCase(c *Case, id int, logDir string) {
 		}
 		if sc.Sfail {
 			s.Stdout = "/proc/verif-no-such-dir/out"
+		}
+		if sc.Out {
+			s.Output = fmt.Sprintf("VERIF_OUT_%d", i)
 		}
 		steps[i] = s
 	}
@@ -352,14 +362,17 @@ func focusWeights(focus string) weights {
 }
 
 func randomCase(r *vh.Rng, nmin, nmax int, w weights) Case {
-	n := nmin + r.Below(nmax-nmin+1)
+	return randomCaseN(r, nmin+r.Below(nmax-nmin+1), w, r.Bool())
+}
+
+func randomCaseN(r *vh.Rng, n int, w weights, shuffle bool) Case {
 	c := Case{Stream: "random"}
 	// a random topological position for every step: deps may point to higher indices
 	perm := make([]int, n)
 	for i := range perm {
 		perm[i] = i
 	}
-	if r.Bool() {
+	if shuffle {
 		for i := n - 1; i > 0; i-- {
 			j := r.Below(i + 1)
 			perm[i], perm[j] = perm[j], perm[i]
@@ -385,15 +398,15 @@ func randomCase(r *vh.Rng, nmin, nmax int, w weights) Case {
 		s.Cos = r.Chance(1, 3)
 		if r.Chance(w.retryNum, w.retryDen) {
 			s.Retry = true
-			s.Rlimit = r.Below(3)
+			s.Rlimit = r.Below(4)
 			s.IntervalUs = 3000 + r.Below(8)*1000
 		}
 		if r.Chance(w.failNum, w.failDen) {
 			// k below / at / above the limit, or always
 			switch r.Below(4) {
-			case 0:
-				if s.Rlimit > 0 {
-					s.Fails = 1 + r.Below(s.Rlimit)
+			case 0: // strictly below the limit when the limit allows it
+				if s.Rlimit > 1 {
+					s.Fails = 1 + r.Below(s.Rlimit-1)
 				} else {
 					s.Fails = 1
 				}
@@ -413,6 +426,9 @@ func randomCase(r *vh.Rng, nmin, nmax int, w weights) Case {
 		if r.Chance(1, 40) {
 			s.Sfail = true
 		}
+		if r.Chance(1, 4) {
+			s.Out = true
+		}
 		steps[perm[k]] = s
 	}
 	c.Steps = steps
@@ -420,6 +436,21 @@ func randomCase(r *vh.Rng, nmin, nmax int, w weights) Case {
 		c.MaxActive = r.Below(n + 2)
 	} else {
 		c.MaxActive = r.Below(5)
+	}
+	return c
+}
+
+// wide DAGs (12-30 steps, always a random declaration order, so early-declared steps depend on late-declared ones
+// and vice versa), run in a FRESH process each: node ids are 1..n as in an agent process
+func wideCase(r *vh.Rng) Case {
+	w := weights{1, 3, 1, 15, 1, 8, 1, 50, false, false}
+	n := 12 + r.Below(19)
+	c := randomCaseN(r, n, w, true)
+	c.Stream = "wide"
+	c.Fresh = true
+	c.MaxActive = 0
+	if r.Chance(1, 4) {
+		c.MaxActive = 2 + r.Below(n)
 	}
 	return c
 }
@@ -440,6 +471,33 @@ func finishCase(c *Case, r *vh.Rng, focus string) {
 	// Schedule is given a done channel, as the agent always does; one run in 16 passes nil like the package's own tests
 	c.Done = c.Dry || !r.Chance(1, 16)
 	c.Rs = r.Next()
+}
+
+// runFresh re-executes this binary for one case, so that the scheduler package's global node-id counter starts at 1
+func runFresh(c *Case, id int, logDir string) {
+	in := fmt.Sprintf("%s/fresh-%d-in.jsonl", logDir, id)
+	outp := fmt.Sprintf("%s/fresh-%d-out.jsonl", logDir, id)
+	b, _ := json.Marshal(c)
+	if err := os.WriteFile(in, append(b, '\n'), 0644); err != nil {
+		c.Note = "fresh: " + err.Error()
+		return
+	}
+	cmd := exec.Command(os.Args[0], outp, "child", in)
+	cmd.Env = os.Environ()
+	if o, err := cmd.CombinedOutput(); err != nil {
+		c.Note = fmt.Sprintf("fresh process failed: %v %s", err, string(o))
+		return
+	}
+	res := readCases(outp)
+	if len(res) != 1 {
+		c.Note = "fresh process wrote no result"
+		return
+	}
+	k := c.K
+	*c = res[0]
+	c.K = k
+	os.Remove(in)
+	os.Remove(outp)
 }
 
 func readCases(path string) []Case {
@@ -486,7 +544,7 @@ func main() {
 	}
 	rng := vh.NewRng(vh.SeedFromEnv())
 	var cases []Case
-	if tier == "replay" {
+	if tier == "replay" || tier == "child" {
 		cases = readCases(os.Args[3])
 	} else {
 		nSmall, nRandom, nmax, nDry := 1500, 3600, 8, 120
@@ -513,6 +571,16 @@ func main() {
 		}
 		for i := 0; i < nRandom; i++ {
 			cases = append(cases, randomCase(rng, 4, nmax, w))
+		}
+		nWide := 100
+		if tier == "thorough" {
+			nWide = 800
+		}
+		if tier == "search" {
+			nWide = 200
+		}
+		for i := 0; i < nWide; i++ {
+			cases = append(cases, wideCase(rng))
 		}
 		for i := 0; i < nDry; i++ {
 			c := randomCase(rng, 2, 7, w)
@@ -544,7 +612,11 @@ func main() {
 		go func() {
 			defer wg.Done()
 			for i := range next {
-				runCase(&cases[i], i, logDir)
+				if cases[i].Fresh && tier != "child" {
+					runFresh(&cases[i], i, logDir)
+				} else {
+					runCase(&cases[i], i, logDir)
+				}
 			}
 		}()
 	}
